@@ -185,10 +185,20 @@ pub fn run(ctx: &Ctx, rep: &mut Report) {
     let max_msg = if ctx.quick() { 4096 } else { 262_144 };
     run_generated(ctx, rep, "generated", ctx.n(8000, 120_000), || strategy(max_msg), check);
     screened(ctx, rep);
+    // genuine signatures with extreme SampleInBall runs (corpus/sig_extremes), every provenance
+    let mut ext: Vec<Case> = Vec::new();
+    for e in gen::sig_corpus() {
+        let (key, msg, rnd) = gen::xofsearch::sig_tuple_specs(e.index);
+        for prov in 0..4u8 {
+            ext.push(Case { set: match e.set { 44 => 0, 65 => 1, _ => 2 }, key: key.clone(), msg: msg.clone(), ctx: BytesSpec::empty(), mode: 0, rnd: rnd.clone(), sk_prov: prov & 1, pk_prov: prov, classify: false });
+        }
+        rep.stats("sample_in_ball_extreme_signatures").maximum(&format!("max_consecutive_rejections_set{}", e.set), i64::from(e.sib_max_run));
+    }
+    crate::engine::run_list(rep, "sample_in_ball_extreme_signatures", &ext, check);
 }
 
 pub fn replay(_ctx: &Ctx, sub: &str, case: &Value) -> Option<CheckResult> {
-    if sub == "generated" || sub.starts_with("screened_") {
+    if sub == "generated" || sub.starts_with("screened_") || sub == "sample_in_ball_extreme_signatures" {
         let c: Case = from_case(case);
         let mut st = Stats::default();
         return Some(check(&c, &mut st));
